@@ -4,3 +4,4 @@ import SoxrModel.Properties.C05
 #print axioms Soxr.Properties.C05.schedule_invariance
 #print axioms Soxr.Properties.C05.delivered_is_canonical
 #print axioms Soxr.Properties.C05.control_is_the_count_model
+#print axioms Soxr.Properties.C05.schedule_invariance_plan
